@@ -67,7 +67,11 @@ func (w *jsonWorld) Gen(seed uint64, tier string) *Plan {
 		// a large container: array capacities beyond 1024, trees several levels deep
 		p.Cfg.Dom = []int{32, 256, 1024}[r.Intn(3)]
 		s = makeSubject(p.Cfg, false)
-		op := genFill(r, id, 1030, 2200)
+		hi := 2200
+		if w.prop == "C12" && r.P(1, 3) {
+			hi = 16000 // documents beyond 64 KiB
+		}
+		op := genFill(r, id, 1030, hi)
 		s.ModelApply(op)
 		p.Ops = append(p.Ops, op)
 		p.Cfg.Mode = "big"
